@@ -366,6 +366,27 @@ def check_topology(b, name, g, V, E, with_children=True):
              sample=dict(grid=name, nv=int(V.shape[1]), ne=int(E.shape[1])))
 
 
+def check_child_domains(b, name, g, D):
+    """domain indices of refine() / barycentric_refinement against the model's np.repeat"""
+    res = b.res
+    try:
+        rd = [int(x) for x in g.refine().domain_indices]
+        bd = [int(x) for x in g.barycentric_refinement.domain_indices]
+    except Exception:  # noqa  (reported by check_topology)
+        return
+
+    def h(ans):
+        parts = ans[3:].split("|") if ans.startswith("ok ") else []
+        if len(parts) != 2:
+            res.disagree("childdoms status", grid=name, model=ans[:60])
+            return
+        if [int(x) for x in parts[0].split()] != rd:
+            res.disagree("refine domain indices", grid=name, impl=rd[:40], model=parts[0][:120])
+        if [int(x) for x in parts[1].split()] != bd:
+            res.disagree("barycentric domain indices", grid=name, impl=bd[:40], model=parts[1][:120])
+    b.add("childdoms " + " ".join(str(int(x)) for x in D), h)
+
+
 def check_geometry(b, name, g, V, E):
     res = b.res
     ne = E.shape[1]
@@ -543,10 +564,12 @@ def correspondence(ctx):
     # 1. named meshes and their variants: all tables, children, geometry
     for name, V, E in base_grids(ctx):
         for style, (vn, V2, E2) in enumerate(variants(name, V, E, rng)):
-            g = try_grid(res, api, vn, V2, E2, style=style)
+            D = [rng.choice((0, 1, 2, 7)) for _ in range(E2.shape[1])]
+            g = try_grid(res, api, vn, V2, E2, D, style=style)
             if g is None:
                 continue
             check_topology(b, vn, g, V2, E2)
+            check_child_domains(b, vn, g, D)
             if E2.shape[1] <= 60 or ctx.thorough:
                 check_geometry(b, vn, g, V2, E2)
             res.count("named_grids")
